@@ -6,7 +6,7 @@ subtree gets fresh indices (so indices stay unique), the graft point's payload k
 name → index map after `_relabel_grafted_subtree_nodes` sends that name either to the graft point or
 to a grafted clone — which lies below the graft point, so the recomputed path covers the graft point
 in both cases. -/
-namespace PhyModel.Store
+namespace PhyModel.Store.C06
 open PhyModel
 
 /-! ### `reindex` allocates consecutive fresh indices -/
@@ -219,4 +219,4 @@ theorem cacheOK_addSub_in (dt : Data) (s sub s' : Store) (parent : Option Int) (
         exact ROKx_graftAt dt pi' _ hgr _ hr
       · exact ROKx_graftAt_below dt pi' i _ hgr h1 _ hr
 
-end PhyModel.Store
+end PhyModel.Store.C06
